@@ -75,6 +75,11 @@ def relevant_props(item, trace):
                 ps |= ({"C08"} if miss else set()) | ({"C09"} if extra else set())
                 if item.get("value_diff"):
                     ps |= {"C08"}
+                # frames the collector took although nothing the model knows of asked for it: if a head:N frame was
+                # imported earlier, the import was not a silent copy (C20: import keeps frames as they are)
+                if miss and any(x["op"].get("op") == "import" and isinstance(x["op"].get("frame"), dict)
+                                and str(x["op"]["frame"].get("ttl") or "").startswith("head:") for x in trace[: item["i"]]):
+                    ps.add("C20")
             elif op in ("read", "read_sync", "get", "head"):
                 ps |= {"C01", "C08"}
             elif op == "open":
